@@ -420,6 +420,83 @@ def diagnose(js):
     return why
 
 
+# ------------------------------------------------------------------------------------ EXTENSION: option registry of configfile.c
+def options_stream(run, js, model, impl):
+    """-> dict(evaluations, mismatches [(case, model, impl)], spec_bad [(case, impl)], nobuild [(defined, err)], configs)"""
+    opts = js["options"]
+    gs = []
+    for g_, _ in opts["rows"]:
+        for g in g_:
+            if g not in gs:
+                gs.append(g)
+    if len(gs) <= 4:
+        subsets = [[g for i, g in enumerate(gs) if (m >> i) & 1] for m in range(1 << len(gs))]
+    else:
+        subsets = [list(gs), []] + [[x for x in gs if x != g] for g in gs] + [[g] for g in gs]
+    names = [it[0] for _, it in opts["rows"]]
+    prb = []
+    for n in names + [n[:-1] for n in names if n] + [n + "x" for n in names if n] + ["nosuch", "OUTPUT"]:
+        if n not in prb:
+            prb.append(n)
+    base = run.src("config.h")
+    d0 = os.path.join(impl.dir, "opt")
+    os.makedirs(d0, exist_ok=True)
+    drv = os.path.join(d0, "impl_optreg.o")
+    sh(["gcc"] + impl.flags + ["-I" + os.path.join(VERIF, "harness"), "-c", os.path.join(VERIF, "harness", "impl_optreg.c"), "-o", drv])
+    res = {"evaluations": 0, "mismatches": [], "spec_bad": [], "nobuild": [], "configs": len(subsets)}
+    all_cases, all_impl = [], []
+    for ci, defined in enumerate(subsets):
+        d = os.path.join(d0, "c%d" % ci)
+        os.makedirs(d)
+        open(os.path.join(d, "config.h"), "w").write(synth_config(base, gs, defined))
+        o = os.path.join(d, "configfile.o")
+        p = subprocess.run(["gcc", "-I" + d] + impl.flags + ["-c", os.path.join(run.tree, "src", "configfile.c"), "-o", o], stdout=subprocess.PIPE, stderr=subprocess.STDOUT, text=True)
+        if p.returncode != 0:
+            res["nobuild"].append((defined, p.stdout[-800:]))
+            continue
+        und = set()
+        for line in sh(["nm", "-u", o]).stdout.split("\n"):
+            f = line.split()
+            if len(f) == 2 and (f[1].startswith("snoopy_") or f[1].startswith("ini_")):
+                und.add(f[1])
+        st = os.path.join(d, "stubs.c")
+        open(st, "w").write("#include <stdlib.h>\n" + "".join("void %s(void) { abort(); }\n" % s for s in sorted(und)))
+        exe = os.path.join(d, "impl_optreg")
+        p = subprocess.run(["gcc"] + impl.flags + ["-rdynamic", o, drv, st, "-o", exe, "-ldl"], stdout=subprocess.PIPE, stderr=subprocess.STDOUT, text=True)
+        if p.returncode != 0:
+            res["nobuild"].append((defined, "link: " + p.stdout[-800:]))
+            continue
+        g = glist(defined)
+        cases = ["optall\t%s" % g] + ["optid\t%s\t%s" % (hexs(n.encode()), g) for n in prb]
+        # the implementation driver takes the same lines without the configuration field
+        out = impl.run_cases(exe, ["\t".join(c.split("\t")[:-1]) for c in cases])
+        all_cases += cases
+        all_impl += out
+    if not all_cases:
+        return res
+    mo = run_model(run, model, all_cases)
+    spec = []
+    for c, a in zip(all_cases, all_impl):
+        f, af = c.split("\t"), a.split("\t")
+        if not a.startswith("ok"):
+            res["spec_bad"].append((c, a, "fault"))
+        elif f[0] == "optall" and af[1] != "[]":
+            for ent in af[1].split(","):
+                n, _, pg = ent.partition("=")
+                p_, _, g_ = pg.partition("/")
+                spec.append((c, a, "optspec\t%s\t%s\t%s" % (hexs(n.encode()), p_, g_)))
+        elif f[0] == "optid" and af[1] != "-1":
+            spec.append((c, a, "optspec\t%s\t%s\t%s" % (f[1], af[2], af[3])))
+    so = run_model(run, model, [x[2] for x in spec]) if spec else []
+    for (c, a, sl), r in zip(spec, so):
+        if r != "ok":
+            res["spec_bad"].append((c, a, sl))
+    res["spec_bad"].sort(key=lambda x: 0 if x[0].startswith("optid") else 1)     # the single-name case is the smaller failing input
+    res["mismatches"] = [(c, m, a) for c, m, a in zip(all_cases, mo, all_impl) if m != a]
+    res["evaluations"] = len(all_cases)
+    return res
+
+
 def corpus_jobs(universe):
     """corpus/C13/*.txt -> [(label, defined, [case lines])], grouped by configuration"""
     d = os.path.join(VERIF, "corpus", "C13")
@@ -544,6 +621,20 @@ def check(run):
                       {"stream": "config", "failing_input": {"configuration": describe(universe, defined), "defined": defined, "compiler": err[-1500:]},
                        "cases": ["arrays\tds\t" + glist(defined)]})
         nv += 1
+    # EXTENSION stream (option registry of configfile.c)
+    ext = options_stream(run, js, model, impl)
+    n_eval += ext["evaluations"]
+    for c, a, sl in ext["spec_bad"][:1]:
+        run.violation("ext:option-misbinding", "spec_violation" if a.startswith("ok") else "sanitizer",
+                      "option registry of configfile.c: an option name does not select its own parser/getter: case %s -> %s" % (c, a),
+                      {"stream": "options", "failing_input": {"case": c, "implementation": a}, "cases": [c]})
+        nv += 1
+    if ext["mismatches"] and not ext["spec_bad"] and nv == 0:
+        c, m_, a = ext["mismatches"][0]
+        run.violation("corr:options", "correspondence", "option registry: model and implementation differ on %d cases; first %s: model %s, implementation %s" % (len(ext["mismatches"]), c, m_, a),
+                      {"stream": "options", "correspondence": "registry.options", "first_case": c, "model_output": m_, "impl_output": a, "cases": [c]})
+    if ext["nobuild"]:
+        run.notes.append("extension: configfile.c does not compile in %d of %d configurations of its guards (first: %s)" % (len(ext["nobuild"]), ext["configs"], ext["nobuild"][0][1][-200:]))
     if chk is not None:
         cout = chk.communicate()[0]
         axioms = re.search(r"\* Axioms:\s*(.*?)\n\s*\n", cout, re.S)
@@ -590,8 +681,9 @@ def check(run):
                          "rows": {k: [len(js["registries"][k]["names"]), len(js["registries"][k]["ptrs"])] for k in KEYS},
                          "probe_names": len(prb), "generic_cases": len(gen_lines), "generic_mismatches": len(gen_bad),
                          "array_mismatches": len(mism_arrays), "call_mismatches": len(mism_calls),
-                         "spec_failures": sum(len(v) for v in spec_bad.values()), "configurations_not_building": len(nobuild)},
-        "traces_validated_against_impl": n_eval - len(mism_arrays) - len(mism_calls) - len(gen_bad),
+                         "spec_failures": sum(len(v) for v in spec_bad.values()), "configurations_not_building": len(nobuild),
+                         "extension_option_registry": {"configurations": ext["configs"], "cases": ext["evaluations"], "mismatches": len(ext["mismatches"]), "spec_failures": len(ext["spec_bad"])}},
+        "traces_validated_against_impl": n_eval - len(mism_arrays) - len(mism_calls) - len(gen_bad) - len(ext["mismatches"]),
     })
     return run.finish(
         level="proof",
@@ -618,6 +710,20 @@ def replay(run, path):
     impl = Impl(run, js)
     impl.prepare(list(universe))
     bad = 0
+    if any(l.startswith("opt") for l in cases):
+        ext = options_stream(run, js, model, impl)
+        for c, a, sl in ext["spec_bad"]:
+            print("case: ", c[:300])
+            print(" impl: ", a[:600])
+            print(" -> SPEC-VIOLATION (own parser/getter)")
+            bad += 1
+        for c, m_, a in ext["mismatches"]:
+            if not any(c == x[0] for x in ext["spec_bad"]):
+                print("case: ", c[:300]); print(" model:", m_[:300]); print(" impl: ", a[:300]); print(" -> DIFFERS")
+                bad += 1
+        if not ext["spec_bad"] and not ext["mismatches"]:
+            print("option registry: %d cases in %d configurations -> ok" % (ext["evaluations"], ext["configs"]))
+        cases = [l for l in cases if not l.startswith("opt")]
     for l in cases:
         f = l.split("\t")
         m = run_model(run, model, [l])[0]
